@@ -79,7 +79,7 @@ class BaseValidator(object):
         else:
             try:
                 self.close()
-            except errors.CheckError:
+            except errors.CutplaceError:
                 pass
 
     @property
